@@ -30,12 +30,28 @@ CFG = {
                   "sequential March; AddFieldParallel refines AddField on the chunk table in one statement; any sequence "
                   "of add/march operations gives equal canvases after every step and equal triangle multisets at every "
                   "march whichever variants and schedules are chosen; a block march reads its +x/+y/+z neighbours (a "
-                  "per-block cache is refuted); int(math.Floor(float64(n)/float64(s))) = n/s for n, s < 2^53 (Flocq binary64). The model is tied to the Go code on every run: all 9 mesh entry points for ALL "
+                  "per-block cache is refuted); int(math.Floor(float64(n)/float64(s))) = n/s for n, s < 2^53 (Flocq binary64); "
+                  "TRANSLATOR BINDING: tools/par2coq executes the seven <X>ParallelWithPoolSize methods of Mesh, their "
+                  "sequential counterparts and their wrappers symbolically on every run (helpers inlined, closures "
+                  "entered, if/else merged) and writes loop bounds, callback / read / write indices, panic and "
+                  "delegation conditions as Gallina terms (coq/gen/ParSites.v); generated_sites_partition_exact is proved "
+                  "against those terms: for every element count (incl. PrimitiveCount -1), pool size and branch "
+                  "(topology) the workers visit exactly what the sequential loop visits, in bounds, callback index = "
+                  "element index, nothing read is written; a pool of workers draining a job queue is an interleaving of "
+                  "the jobs (pool_schedule_is_job_interleaving), so the all-interleavings theorems cover AddFieldParallel's "
+                  "and marchFloat1Parallel's worker pools; a block marched once more or less changes the triangle "
+                  "multiset. The model is tied to the Go code on every run: all 9 mesh entry points for ALL "
                   "n <= 40 x pool <= 20 plus sampled n up to 2e6, per-index atomic call counters and value sums, outputs "
                   "compared with the sequential entry point, with the ideal observation (direct oracle) and with the "
                   "model run on three schedules; AddField/AddFieldParallel chunk tables (read back by reflection, bitwise) "
                   "and March/MarchParallel triangle multisets on fields spanning 1, 2, 8 blocks; and the same cases are "
-                  "executed by a binary built with -race (a data-race report is a violation)",
+                  "executed by a binary built with -race (a data-race report is a violation); the attribute entry points "
+                  "run on meshes of every topology with index buffers and further attributes of other lengths (everything "
+                  "the entry point does not compute must come back bitwise), with 3-4 goroutines calling the same entry "
+                  "point on one mesh at once, and with results read back only after later calls; canvases hold up to three "
+                  "attributes (one introduced by a later field), are marched on non-default attributes through "
+                  "MarchOnAttribute[Parallel], at 2 and 1/2 cubes per unit, and meshes returned by MarchParallel are "
+                  "re-read after later operations",
     "level_note": "PARTIAL on 'every thread schedule': the theorems quantify over all interleavings of the MODEL's "
                   "per-element atomic steps (and of Fetch/Acc steps for the canvas); real goroutine schedules, the Go "
                   "memory model and the race detector's happens-before are runtime facts that are SAMPLED, not proved: "
@@ -49,7 +65,9 @@ CFG = {
                   "free); marching "
                   "triangles are compared as weld-cell key triples (the rounding WeldByFloat3Attribute applies)",
     "technique": "Coq proof (induction over interleavings, permutation/NoDup arguments, per-key projection of "
-                 "executions, chunk arithmetic by lia) + vm_compute correspondence check + Go race detector",
+                 "executions, chunk arithmetic by lia) + translator binding (symbolic execution of the Go entry points "
+                 "into Gallina terms, obligations re-proved on every run) + vm_compute correspondence check + Go race "
+                 "detector",
     "design_ref": "DESIGN.md §4 C10",
     "n_quick": 150, "n_thorough": 1200,
     "harness_timeout": 3300,
@@ -57,10 +75,18 @@ CFG = {
             "ScanPrimitivesParallelWithPoolSize on triangle (with trailing partial triangle) / point / line-strip "
             "(incl. the index-less strip with PrimitiveCount -1) meshes for all n in 0..40 x pool in 1..20; pool sizes "
             "0, -1, -7 (declared panic); the variants without pool size (runtime.NumCPU() workers) for n in "
-            "{0,1,15,16,17,33,100}; n sampled cases: 60% n in 41..160 with pool sizes up to 400 (near n, 2n, primes), "
+            "{0,1,15,16,17,33,100}; the mesh under an attribute entry point cycles with n+s through 6 variants (point cloud "
+            "with only the attribute; triangle / line strip / quad / line loop / line topology with an index buffer of "
+            "unrelated length, a second attribute of the same arity one element longer or shorter and attributes of "
+            "the other arities), under a primitive scan through 3 (no / two further attributes); 135 cases with 3-4 "
+            "concurrent callers on one mesh (n in {0,1,7,33,64} x pool in {2,3,NumCPU}); 48 Modify cases whose result "
+            "is read after two further calls on other meshes; a panic of an entry point is a failure also for n = 0; "
+            "n sampled cases: 60% n in 41..160 with pool sizes up to 400 (near n, 2n, primes), "
             "40% n log-uniform in 200..2e6 with pools up to 4096 judged through a run-length summary; marching: 8 fixed "
             "canvases (1, 2, 8 blocks, negative chunk, box ending on a chunk boundary, nothing crossing the cutoff, two "
-            "overlapping fields, empty canvas), seam canvases (signed-distance spheres whose min/max along each axis lies "
+            "overlapping fields, empty canvas), 7 canvases with 2-3 attributes (marched attribute owning block (0,0,0) next "
+            "to foreign blocks, attribute introduced by a later field, MarchOnAttribute[Parallel] on the 2nd/3rd "
+            "attribute, on a missing attribute (declared panic in both), 2 and 1/2 cubes per unit), seam canvases (signed-distance spheres whose min/max along each axis lies "
             "inside, a hair inside, just short of or just across the one-cell seam between two blocks, borders -100..200, "
             "2 tripods + 3 mixed + 3 random in quick, 60 + 40 random in thorough), canvases with more jobs than the "
             "runtime.NumCPU() pool workers (a tube through NumCPU+4 surface-bearing blocks marched at GOMAXPROCS 2 and, "
@@ -70,7 +96,13 @@ CFG = {
             "compared with a fresh sequentially built and marched canvas; 3 + 2 random in quick, 15 + 30 in thorough) "
             "+ 24 random large ones in thorough; distinct by case description; non-trivial = "
             "n >= 2 and pool >= 2 (mesh) / >= 2 blocks and >= 1 triangle (marching)",
-    "trusted": ["Go race detector (-race build of the same harness, GORACE=halt_on_error=0): reports are attributed to the "
+    "trusted": ["tools/par2coq (symbolic executor for the integer code of modeling/mesh.go: its rendering of Go "
+                "expressions as Gallina terms is trusted; anything it cannot follow makes it fail, and the check then "
+                "reports the obligation as broken); the identification int(math.Floor(float64(a)/float64(s))) = a / s "
+                "used by the translator is the Flocq theorem work_size_float64",
+                "case files carry counters and value codes as primitive 63-bit integers (Uint63 literals, converted to N "
+                "by Check/C10.v before anything is judged): kernel primitive, no axiom",
+                "Go race detector (-race build of the same harness, GORACE=halt_on_error=0): reports are attributed to the "
                 "case that was executing; absence of a report is evidence for the sampled schedules only",
                 "the harness executes cases in child processes of itself so that a panic inside a worker goroutine of the "
                 "code under test (which kills the process) is attributed to a case and replayable",
